@@ -51,3 +51,7 @@ claim("C16", "DESIGN.md 3/C16",
       "for each of 10 threshold-driven tests every series of the bounded space is executed at every point of a 6-75 point parameter lattice and every ordered comparable (loose<=strict) pair is compared pointwise: severity never decreases, UNKNOWN/MISSING sets identical (quick: 0.4 M executions, 4.8 M pair comparisons)",
       "metamorphic (no reference model); only comparable pairs judged; lattices are finite menus of thresholds/spans",
       TECH_TREE + " + all-pairs relation check on the explored states")
+claim("C17", "DESIGN.md 3/C17",
+      "for every (test, relation) of the statement every series of length 0..4 (thorough 5) x parameter sets is re-executed under every value offset, negation, time shift (incl. half-second and pre-1970), joint data+span shift, reversal and every single-point perturbation (each position x each other symbol); flags must be identical / mirrored / unchanged outside the neighbourhood",
+      "metamorphic (no reference model); dyadic values so transformations are exact; std cases within 1e-6 of a threshold skipped",
+      TECH_TREE + " + metamorphic relation check between pairs of explored states")
